@@ -58,7 +58,9 @@ def make_case(seed, index, tier):
         contenders.append({'name': 'p%d' % number, 'rounds': rounds})
     # the locks may have served an earlier simulation (e.g. module-level locks)
     return {'seed': seed, 'index': index, 'tier': tier, 'scenario': contenders,
-            'reused': rng.random() < 0.5}
+            'reused': rng.random() < 0.5,
+            # a clock that absorbs every delay of the scenario (one date, many batches)
+            'start': rng.choice([1.7e18, 2.0 ** 70]) if rng.random() < 0.05 else 0}
 
 
 class Leave(Exception):
@@ -186,6 +188,7 @@ def earlier_simulation(locks):
 
 def build_for(case):
     def build(arena):
+        arena.start = case.get('start', 0)
         locks = [Lock(), Lock()]
         if case.get('reused'):
             earlier_simulation(locks)
